@@ -237,7 +237,7 @@ def big_stream(rng, mebibyte: bool = False):
 
 
 def _iteration(ctx, rng, i, tmpdir):
-    if i == 2 and ctx.shard == 0:
+    if i == 2 and ctx.shard == 0 and __debug__:
         vs = big_stream(rng, mebibyte=True)    # > 1 MiB, once per run
         vs["mode"] = "rdf11"
         ctx.observe("big-streams(>1MiB)")
@@ -265,7 +265,7 @@ def _iteration(ctx, rng, i, tmpdir):
     rdf11 = vs.get("mode") == "rdf11" or vs["producer"] == "crafted-header"
     integ = "rdflib" if rdf11 and rng.random() < .5 else "generic"
     entry = rng.choice(["flat", "flat", "grouped", "to_graph"] + (["plugin", "plugin"] if integ == "rdflib" else []))
-    if i == 2 and ctx.shard == 0:
+    if i == 2 and ctx.shard == 0 and __debug__:
         integ, entry = "rdflib", "plugin"
     base, exc = parse_from(integ, entry, io.BytesIO(data))
     if exc is not None or (entry == "flat" and base != T.norm_events(vs["events"])):
